@@ -26,6 +26,12 @@ pub struct Case {
     pub w: Vec<f64>,
     /// basis probes: dot_f64(v, e_i) must be exactly v[i]
     pub probes: Vec<usize>,
+    /// history before the calls under test: a product of two other vectors of this length on the
+    /// same thread (0 = none). The routine must not remember anything between calls.
+    pub decoy_len: usize,
+    /// after the calls under test, change one element of v IN PLACE (same buffers, same length)
+    /// and multiply again: the answer must follow the data
+    pub mutate: bool,
     pub scheds: Vec<SchedSpec>,
 }
 
@@ -36,6 +42,15 @@ const GRID: u64 = 201 * 16;
 fn gen_exact(rng: &mut Rng, len: usize) -> (Vec<f64>, Vec<f64>) {
     let mut v = Vec::with_capacity(len);
     let mut w = Vec::with_capacity(len);
+    if rng.chance(0.08) {
+        // every product is +0.0 or -0.0: the exact sum is +0.0, bit for bit, like the sequential fold from +0.0
+        for _ in 0..len {
+            let a = rng.range(1, 9) as f64 * if rng.chance(0.7) { -1.0 } else { 1.0 };
+            v.push(a);
+            w.push(if rng.chance(0.5) { 0.0 } else { -0.0 });
+        }
+        return (v, w);
+    }
     let small = rng.chance(0.3);
     let lim: i64 = if small { 9 } else { 1 << 20 };
     for _ in 0..len {
@@ -138,6 +153,10 @@ fn dot2(v: &[f64], w: &[f64]) -> (f64, f64) {
     (p + s, abs)
 }
 
+fn k_idx(outs: &[ExecOut], o: &ExecOut) -> usize {
+    outs.iter().position(|x| std::ptr::eq(x, o)).unwrap_or(0)
+}
+
 fn exact_i128(v: &[f64], w: &[f64]) -> i128 {
     let mut s: i128 = 0;
     for i in 0..v.len() {
@@ -146,14 +165,20 @@ fn exact_i128(v: &[f64], w: &[f64]) -> i128 {
     s
 }
 
+/// the in-place change applied to v[len/2]: stays integer-valued for exact data
+fn mutated_value(x: f64) -> f64 {
+    if x.fract() == 0.0 {
+        x + 3.0
+    } else {
+        -0.5 * x
+    }
+}
+
 #[inline]
 fn canon(x: f64) -> u64 {
-    // +0.0 and -0.0 are the same value
-    if x == 0.0 {
-        0
-    } else {
-        x.to_bits()
-    }
+    // bit-identical means bit-identical: -0.0 is not +0.0 (the sequential product folds from +0.0
+    // and can never return -0.0)
+    x.to_bits()
 }
 
 #[derive(Clone, Debug, Default)]
@@ -165,6 +190,8 @@ struct ExecOut {
     seq: f64,
     operands_intact: bool,
     cpu_queries: u64,
+    /// after the in-place change: (dot_f64, sequential dot) on the changed data
+    mutated: Option<(f64, f64)>,
 }
 
 fn execute_raw(case: &Case) -> (Vec<ExecReport>, Vec<ExecOut>) {
@@ -174,7 +201,12 @@ fn execute_raw(case: &Case) -> (Vec<ExecReport>, Vec<ExecOut>) {
     let reports = run_under(&case.scheds, move |idx| {
         verif_seam::num_cpus::set_override(Some(c.cpus));
         let q0 = verif_seam::num_cpus::calls();
-        let v = Vector::<f64>::create(c.v.clone());
+        if c.decoy_len > 0 {
+            let a = Vector::<f64>::create((0..c.decoy_len).map(|i| (i % 13) as f64 + 1.0).collect());
+            let b = Vector::<f64>::create((0..c.decoy_len).map(|i| (i % 7) as f64 - 3.5).collect());
+            let _ = a.dot_f64(&b);
+        }
+        let mut v = Vector::<f64>::create(c.v.clone());
         let w = Vector::<f64>::create(c.w.clone());
         let r1 = v.dot_f64(&w);
         let r2 = v.dot_f64(&w);
@@ -190,10 +222,17 @@ fn execute_raw(case: &Case) -> (Vec<ExecReport>, Vec<ExecOut>) {
             probes.push(v.dot_f64(&e));
         }
         let seq = v.dot(&w);
+        let mutated = if c.mutate && !c.v.is_empty() {
+            let k = c.v.len() / 2;
+            v.vec[k] = mutated_value(c.v[k]);
+            Some((v.dot_f64(&w), v.dot(&w)))
+        } else {
+            None
+        };
         let q1 = verif_seam::num_cpus::calls();
         verif_seam::num_cpus::set_override(None);
         let mut o = o2.lock().unwrap();
-        o[idx] = ExecOut { done: true, r1, r2, probes, seq, operands_intact: intact, cpu_queries: q1 - q0 };
+        o[idx] = ExecOut { done: true, r1, r2, probes, seq, operands_intact: intact, cpu_queries: q1 - q0, mutated };
     });
     verif_seam::num_cpus::set_override(None);
     let outs = outs.lock().unwrap().clone();
@@ -209,9 +248,9 @@ impl Prop for C16 {
     fn tag(&self) -> u64 {
         16
     }
-    fn isolate_runs(&self) -> bool {
-        false // each worker keeps one long-lived shuttle server thread (pooled coroutine stacks)
-    }
+    // isolate_runs() stays true: every chunk of 64 runs gets a fresh client thread and therefore a
+    // fresh shuttle server thread (thread-local state of the system under test lives there); the
+    // coroutine stacks are pooled within the chunk.
     fn runs(&self, tier: Tier) -> u64 {
         match tier {
             Tier::Quick => GRID * 2 + 1500,
@@ -261,9 +300,12 @@ impl Prop for C16 {
             Tier::Thorough => 8,
         };
         // every call spawns `cpus` tasks; ids grow over the calls of one execution
-        let max_tasks = cpus * (2 + probes.len());
+        let max_tasks = cpus * (4 + probes.len());
         let scheds = (0..k).map(|_| SchedSpec::draw(&mut srng, max_tasks)).collect();
-        Case { cpus, kind, v, w, probes, scheds }
+        let mut hrng = rng.fork(4);
+        let decoy_len = if hrng.chance(0.35) { len + hrng.urange(1, 3 * cpus + 2) } else { 0 };
+        let mutate = hrng.chance(0.35);
+        Case { cpus, kind, v, w, probes, decoy_len, mutate, scheds }
     }
 
     fn execute(&self, case: &Case, stats: &mut Stats) -> Verdict {
@@ -302,6 +344,9 @@ impl Prop for C16 {
         if cpus > 16 {
             stats.count("probe.cpus_above_16");
         }
+        if case.decoy_len > 0 {
+            stats.count("probe.history_other_product_before");
+        }
         for r in &reports {
             stats.count("executions");
             stats.steps += r.trace.len() as u64;
@@ -324,7 +369,7 @@ impl Prop for C16 {
                 stats.count("fault.stalled_worker");
             }
         }
-        stats.add("dot_f64_calls", (reports.len() * (2 + case.probes.len())) as u64);
+        stats.add("dot_f64_calls", (reports.len() * (2 + case.probes.len() + (case.decoy_len > 0) as usize + (case.mutate && len > 0) as usize)) as u64);
 
         // ---- oracle (c): every execution completes — no panic, no deadlock
         for (k, r) in reports.iter().enumerate() {
@@ -402,8 +447,33 @@ impl Prop for C16 {
                     );
                 }
             }
+            // the same buffers with one element changed in place: the answer must follow the data
+            if let Some((m1, mseq)) = o.mutated {
+                let mut v2 = case.v.clone();
+                let k = v2.len() / 2;
+                v2[k] = mutated_value(v2[k]);
+                stats.log.f64(m1);
+                let ok = match case.kind {
+                    Kind::Exact => {
+                        let want = exact_i128(&v2, &case.w) as f64;
+                        m1.to_bits() == want.to_bits() && mseq.to_bits() == want.to_bits()
+                    }
+                    Kind::General => {
+                        let (s3, a3) = dot2(&v2, &case.w);
+                        (m1 - s3).abs() <= gamma * a3 + f64::MIN_POSITIVE
+                    }
+                };
+                if !ok {
+                    return violation(
+                        "stale-result",
+                        "dot_f64:in-place-change",
+                        format!("len={len} cpus={cpus} schedule#{k2}: after changing v[{k}] in place dot_f64 = {:e}, sequential dot = {:e} (before the change dot_f64 was {:e})", m1, mseq, o.r1, k2 = k_idx(outs.as_slice(), o)),
+                    );
+                }
+                stats.count("probe.in_place_change_checked");
+            }
             // oracle (b1): repeated call inside one execution
-            if o.r1.to_bits() != o.r2.to_bits() && canon(o.r1) != canon(o.r2) {
+            if o.r1.to_bits() != o.r2.to_bits() {
                 return violation(
                     "schedule-dependence",
                     "dot_f64:repeat",
@@ -429,7 +499,7 @@ impl Prop for C16 {
         }
         // recorded, not asserted: worker tasks per call, CPU-count queries
         if let Some(r) = reports.first() {
-            let calls = 2 + case.probes.len();
+            let calls = 2 + case.probes.len() + (case.decoy_len > 0) as usize + (case.mutate && len > 0) as usize;
             let workers_per_call = r.max_task_id as usize / calls.max(1);
             stats.seen("workers_per_call_vs_cpus", ((workers_per_call as u64) << 16) | cpus as u64);
             if workers_per_call != cpus {
@@ -454,6 +524,16 @@ impl Prop for C16 {
     fn shrink(&self, case: &Case) -> Vec<Case> {
         let mut out = vec![];
         let len = case.v.len();
+        if case.decoy_len > 0 {
+            let mut c = case.clone();
+            c.decoy_len = 0;
+            out.push(c);
+        }
+        if case.mutate {
+            let mut c = case.clone();
+            c.mutate = false;
+            out.push(c);
+        }
         // fewer schedules
         if case.scheds.len() > 1 {
             for k in 0..case.scheds.len() {
@@ -536,6 +616,8 @@ impl Prop for C16 {
             "v_preview": case.v.iter().take(8).collect::<Vec<_>>(),
             "w_preview": case.w.iter().take(8).collect::<Vec<_>>(),
             "basis_probes": case.probes,
+            "history_decoy_product_len": case.decoy_len,
+            "then_change_v_in_place_and_repeat": case.mutate,
             "schedules": case.scheds.iter().map(|s| s.to_json()).collect::<Vec<_>>(),
         })
     }
@@ -547,6 +629,8 @@ impl Prop for C16 {
             v: hex_f64s(&v["v_bits"]),
             w: hex_f64s(&v["w_bits"]),
             probes: v["basis_probes"].as_array().map(|a| a.iter().map(usize_of).collect()).unwrap_or_default(),
+            decoy_len: v["history_decoy_product_len"].as_u64().unwrap_or(0) as usize,
+            mutate: v["then_change_v_in_place_and_repeat"].as_bool().unwrap_or(false),
             scheds: v["schedules"].as_array().map(|a| a.iter().map(SchedSpec::from_json).collect()).unwrap_or_default(),
         }
     }
@@ -558,7 +642,7 @@ impl Prop for C16 {
                 "shuttle's coroutine model of std::thread::scope/spawn/join is faithful for code whose worker bodies contain no synchronisation (true of dot_f64: bodies read disjoint immutable slices)".into(),
                 "the CPU-count override models num_cpus::get(); both are cross-checked by the Miri engine (real std threads, -Zmiri-num-cpus) in the thorough tier".into(),
                 "general-float oracle is the reassociation bound gamma(len+2)*sum|v_i w_i| against a Dot2 (twice-working-precision) reference; it cannot alarm on any complete partition in any order".into(),
-                "+0.0 and -0.0 count as the same value".into(),
+                "bit-identical is taken literally: -0.0 is not +0.0 (the sequential fold starts from +0.0 and cannot return -0.0)".into(),
             ],
             real_components: vec!["ohsl::Vector::<f64>::dot_f64 (partition, slices, worker closures, join loop, reduction)".into(), "ohsl::Vector::dot".into()],
             stub_components: vec!["std::thread::{scope,spawn,join} -> shuttle runtime + our scheduler".into(), "num_cpus::get -> per-run override".into()],
@@ -568,6 +652,6 @@ impl Prop for C16 {
     }
 
     fn required_probes(&self, _tier: Tier) -> Vec<&'static str> {
-        vec!["len_lt_w", "len_mod_w_nonzero", "len_zero", "chunk_zero", "last_worker_bigger", "worker_order_ne_spawn_order", "main_blocked_on_join"]
+        vec!["len_lt_w", "len_mod_w_nonzero", "len_zero", "chunk_zero", "last_worker_bigger", "worker_order_ne_spawn_order", "main_blocked_on_join", "history_other_product_before", "in_place_change_checked"]
     }
 }
